@@ -28,6 +28,7 @@ var exprForms = []string{
 	`f(a, 1)`, `f()`, `a|up`, `a|wrap("x")`, `s|up|wrap('y')`, `"x #{a} y"`, `"#{a}#{b}"`,
 	`f(a|up, [b])`, `h.k|up`, `(a)`, `a ? "y" : 'n'`,
 	`[]|join`, `{}|length`, `[[1, 2], []]|length`, `f([], {})`,
+	`f("x#{a}y")`, `["#{a}", "b"]|join`, `("#{a}#{b}")`, `{"k": "#{a}"}.k`,
 	`a and -b`, `z or +a`, `not -z`, `a and not z`, `a in [-1, +3]`, `a is odd or -b`, `a - -b`, `a ~ -b`, `-a ** 2`, `(a) - (b)`, `f(-a, +b)`, `a == -b ? -a : +b`,
 }
 
